@@ -27,7 +27,7 @@ MODULE = {
         },
         "pathsplit": {
             "types": {"urlpath": "Str"}, "returns": "Seq[Str]",
-            "ensures": ["implies(old(urlpath).strip() == '' or old(urlpath).strip() == '/', len(result) == 0)"],
+            "ensures": ["(len(result) == 0) == (old(urlpath).strip() == '' or old(urlpath).strip() == '/')"],
         },
     },
 }
